@@ -18,7 +18,7 @@ import (
 )
 
 type c01Stream struct {
-	Dir  string `json:"dir"`  /* i | o | io */
+	Dir  string `json:"dir"` /* i | o | io */
 	Wire string `json:"id_on_the_wire"`
 }
 
